@@ -26,6 +26,12 @@ def pool_json(g):
         M('T', ['o'], 'Type', docs.type_matcher(['o'], 'map'), typ='map'),
         M('C', ['a'], 'Custom', docs.custom_matcher('a', True, '"c"'), newv='c'),
         M('A', ['missing'], 'Any', docs.any_matcher(['missing'])),
+        # a container, then a path inside it: gone once the container is replaced by the placeholder
+        M('A', ['o', 'o.x'], 'Any', docs.any_matcher(['o', 'o.x'])),
+        M('A', ['l', 'l.0.k', 's'], 'Any', docs.any_matcher(['l', 'l.0.k', 's'])),
+        # concrete element types never match a decoded document
+        M('T', ['o.y'], 'Type', docs.type_matcher(['o.y'], 'intslice'), typ='intslice'),
+        M('T', ['o'], 'Type', docs.type_matcher(['o'], 'strintmap'), typ='strintmap'),
         M('A', ['disk%s'], 'Any', docs.any_matcher(['disk%s'])),
         M('C', ['load%d.x'], 'Custom', docs.custom_matcher('load%d.x', True, '1')),
         M('T', ['n'], 'Type', docs.type_matcher(['n'], 'string'), typ='string'),
@@ -47,6 +53,9 @@ def pool_yaml(g):
         M('T', ['$.a'], 'Type', docs.type_matcher(['$.a'], 'uint64'), typ='float64'),
         M('C', ['$.s'], 'Custom', docs.custom_matcher('$.s', True, '"c"'), newv='c'),
         M('A', ['$.missing'], 'Any', docs.any_matcher(['$.missing'])),
+        M('A', ['$.o', '$.o.x'], 'Any', docs.any_matcher(['$.o', '$.o.x'])),
+        M('T', ['$.o.y'], 'Type', docs.type_matcher(['$.o.y'], 'intslice'), typ='intslice'),
+        M('T', ['$.o'], 'Type', docs.type_matcher(['$.o'], 'strintmap'), typ='strintmap'),
         M('T', ['$.a'], 'Type', docs.type_matcher(['$.a'], 'string'), typ='string'),
         M('C', ['$.s'], 'Custom', docs.custom_matcher('$.s', False, 'boom'), ok=False),
         M('A', ['$.missing'], 'Any', docs.any_matcher(['$.missing'], None, False), eom=False),
